@@ -327,6 +327,16 @@ impl<'a, D: AsRef<[u8]>, P: AsRef<[usize]>> Lend<'a, D, P> {
     }
 
     pub fn new_from(rca: &'a RearCodedList<D, P>, from: usize) -> Self {
+        if from >= rca.len() {
+            // Nothing to return: there might be no block to start from
+            // (e.g., in an empty list, or when from is a multiple of k)
+            return Lend {
+                rca,
+                index: rca.len(),
+                data: &[],
+                buffer: Vec::new(),
+            };
+        }
         let block = from / rca.k;
         let offset = from % rca.k;
 
